@@ -156,3 +156,32 @@ def train(registry_dir: str, project: str, release: str, nonce: str) -> None:
     with daskrunner.Runner(instance, Feed(), null.Sink(), scheduler='synchronous') as runner:
         runner.train()
     projgen.clear_caches()
+
+
+def build_world(workdir: str, config: dict, salt: str) -> None:
+    """Registry with projects / generations and an inventory with applications (run in a process of its own: the
+    dask runner used for training must not leak its imports - e.g. tblib's exception pickling hooks - into the
+    serving process under observation)."""
+    from . import projgen
+
+    registry = os.path.join(workdir, 'registry')
+    inventory = os.path.join(workdir, 'inventory')
+    adir = projgen.directory(registry)
+    for p, (project, actors, generations) in enumerate(config['projects']):
+        projgen.publish(adir, write_project(workdir, project, '1', actors, salt, config['delay_ms']))
+        for g in range(generations):
+            train(registry, project, '1', f'{project}g{g + 1}n{salt}')
+        for app, generation in config['apps'][p]:
+            write_application(inventory, app, project, '1', generation)
+
+
+if __name__ == '__main__':
+    import json
+    import sys
+
+    from . import core
+
+    core.quiet_stderr()
+    with open(sys.argv[1], encoding='utf-8') as _fd:
+        _job = json.load(_fd)
+    build_world(_job['workdir'], _job['config'], _job['salt'])
